@@ -87,6 +87,7 @@ def run(chk):
         # default airfoil = the first listed
         ac2 = copy.deepcopy(ac)
         del ac2["wings"]["w"]["airfoil"]
+        ac2["airfoils"] = {k: ac2["airfoils"][k] for k in reversed(list(ac2["airfoils"]))}     # listed order != alphabetical order
         sc2 = gen.build_scene(MX, {"scene": {"atmosphere": {"rho": 0.0023769}}}, [("a", ac2, {"velocity": 50.0}, {})])
         for seg in sc2._airplanes["a"].segments:
             if seg._airfoils[0].name != list(ac2["airfoils"].keys())[0] or seg._num_airfoils != 1:
